@@ -57,6 +57,9 @@ func main() {
 		if len(os.Args) < 3 {
 			usage()
 		}
+		if strings.HasPrefix(os.Args[2], "sterm:") {
+			os.Exit(runDebugSTerm(strings.TrimPrefix(os.Args[2], "sterm:")))
+		}
 		if strings.HasPrefix(os.Args[2], "terms:") {
 			os.Exit(runDebugTerms(strings.TrimPrefix(os.Args[2], "terms:")))
 		}
